@@ -1,5 +1,5 @@
 //! Native replay: runs one harness body with the byte vector Kani chose for its `kani::any()` calls.
-//! exit 0 = body completed, 101 = assertion of the harness or panic inside the expansion, 3 = an
+//! exit 0 = body completed, 102 = assertion of the harness, 101 = panic inside the expansion, 3 = an
 //! assumption of the harness does not hold for these bytes, 4 = unknown harness.
 use @CRATE@::rt::nd;
 fn main() {
